@@ -353,6 +353,124 @@ theorem verify_history_independent (pre post : List Call) (c : Call) :
 
 end
 
+/-! ### 5. the glue: key import (get_public_key) and the command-line entry point (__main__) -/
+
+section
+variable {D : Type} [DecidableEq D]
+variable (H : Str → D) (sigDecodes : PVal → Bool) (sigValid : D → PVal → Bool) (hashOf : PVal → Option D)
+
+/-- with a key that is present and imported, the code with the key import answers like the code without it:
+every theorem of section 4 is a theorem about `verifyK` -/
+theorem verifyK_key_ok (k : Key) (hk : keyOk k = true) (rplay p : Play) :
+    verifyK H sigDecodes sigValid hashOf k rplay p = verify H sigDecodes sigValid hashOf rplay p := by
+  have e : ∀ q, verifyPlayFullK H sigDecodes sigValid k q = verifyPlayFull H sigDecodes sigValid q := by
+    intro q; simp [verifyPlayFullK, verifyPlayFull, hk]
+  simp [verifyK, verify, revocationListK, revocationList, e]
+
+example : keyOk ⟨true, 1⟩ = true := by decide
+
+omit [DecidableEq D] in
+/-- without the public key (file missing / empty, or GPG imported nothing) `verify_play` never reports a
+verdict: it fails, whatever GPG would say about the signature -/
+theorem verifyPlayFullK_no_key (k : Key) (hk : keyOk k = false) (p : Play) :
+    ∃ e, verifyPlayFullK H sigDecodes sigValid k p = .error e := by
+  unfold verifyPlayFullK
+  split
+  · exact ⟨_, rfl⟩
+  · split
+    · simp [hk]
+    · exact ⟨_, rfl⟩
+
+example : keyOk ⟨true, 0⟩ = false ∧ keyOk ⟨false, 1⟩ = false ∧ keyOk ⟨true, -1⟩ = false := by decide
+
+/-- ... and nothing is accepted -/
+theorem verifyK_no_key_rejects (k : Key) (hk : keyOk k = false) (rplay p : Play) :
+    verifyK H sigDecodes sigValid hashOf k rplay p ≠ .ok () := by
+  obtain ⟨e, he⟩ := verifyPlayFullK_no_key H sigDecodes sigValid k hk rplay
+  unfold verifyK
+  split
+  · intro h; cases h
+  · simp only [revocationListK, he]
+    intro h; cases h
+
+/-- exact characterisation: `verify` with the key import accepts iff the key was imported and `verify`
+of section 4 accepts (so `verify_accepts`, `revoked_rejected`, `unsigned_rejected`, `bad_exclusion_rejected`
+and `signature_binds_core` hold of it) -/
+theorem verifyK_ok_iff (k : Key) (rplay p : Play) :
+    verifyK H sigDecodes sigValid hashOf k rplay p = .ok () ↔
+      keyOk k = true ∧ verify H sigDecodes sigValid hashOf rplay p = .ok () := by
+  cases hk : keyOk k with
+  | true => simp [verifyK_key_ok H sigDecodes sigValid hashOf k hk]
+  | false =>
+    simp only [Bool.false_eq_true, false_and, iff_false]
+    exact verifyK_no_key_rejects H sigDecodes sigValid hashOf k hk rplay p
+
+/-- nothing is accepted without a revocation list that loads as a play (and then `verifyK` decides) -/
+theorem verifyDoc_ok_iff (k : Key) (rdoc : RDoc) (p : Play) :
+    verifyDoc H sigDecodes sigValid hashOf k rdoc p = .ok () ↔
+      ∃ r, rdoc = .play r ∧ verifyK H sigDecodes sigValid hashOf k r p = .ok () := by
+  unfold verifyDoc
+  by_cases he : p.isEmpty = true
+  · have hp : p = [] := by cases p <;> simp_all
+    subst hp
+    simp [verifyK]
+  · cases rdoc <;> simp [he]
+
+example : verifyDoc (D := Str) id (fun _ => true) (fun _ _ => true) (fun _ => none) ⟨true, 1⟩ .unloadable
+    [(.str sHosts, .sc .none)] = .error .verr := by simp [verifyDoc]
+
+omit [DecidableEq D] in
+/-- a missing key is a verification error, not a traceback, for every play that got as far as GPG -/
+theorem verifyPlayFullK_no_key_verr (k : Key) (hk : keyOk k = false) (p : Play) (text : Str) (sig : PVal)
+    (hv : verifyPlay p = .ok (text, sig)) (hd : sigDecodes sig = true) :
+    verifyPlayFullK H sigDecodes sigValid k p = .error .verr := by
+  simp [verifyPlayFullK, hv, hd, hk]
+
+end
+
+/-- the loop of `__main__` ends with exit 0 exactly when every top-level entry is a mapping that `verify` accepts -/
+theorem mainLoop_ok_iff : ∀ es : List (Option (Except Err Unit)),
+    mainLoop es = .ok ↔ ∀ e ∈ es, e = some (.ok ())
+  | [] => by simp [mainLoop]
+  | none :: r => by simp [mainLoop]
+  | some (.ok ()) :: r => by simp [mainLoop, mainLoop_ok_iff r]
+  | some (.error .verr) :: r => by simp [mainLoop]
+  | some (.error .crash) :: r => by simp [mainLoop]
+
+example : mainLoop [some (.ok ()), some (.ok ())] = .ok := by decide
+example : mainLoop [some (.ok ()), some (.error .verr), none] = .bad := by decide
+
+/-- without SKIP_VERIFY the playbook is printed (handed to Ansible) iff the text loaded and every top-level
+entry verified; then, and only then, the exit status is 0 -/
+theorem main_prints_iff (doc : Option (List (Option (Except Err Unit)))) :
+    ((mainRun false doc).2 = true ↔ ∃ es, doc = some es ∧ ∀ e ∈ es, e = some (.ok ())) ∧
+    ((mainRun false doc).2 = true ↔ (mainRun false doc).1 = .ok) := by
+  cases doc with
+  | none => simp [mainRun]
+  | some es => simp [mainRun, mainLoop_ok_iff]
+
+example : mainRun false (some [some (.ok ())]) = (.ok, true) := by decide
+example : mainRun false (some [some (.ok ()), some (.error .verr)]) = (.bad, false) := by decide
+
+/-- one entry that does not verify is enough, wherever it stands, and nothing after it matters -/
+theorem main_one_bad_entry (pre post : List (Option (Except Err Unit))) (e : Option (Except Err Unit))
+    (he : e ≠ some (.ok ())) : (mainRun false (some (pre ++ e :: post))).2 = false := by
+  have h := (main_prints_iff (some (pre ++ e :: post))).1
+  cases hb : (mainRun false (some (pre ++ e :: post))).2 with
+  | false => rfl
+  | true =>
+    obtain ⟨es, h1, h2⟩ := h.mp hb
+    injection h1 with h1; subst h1
+    exact absurd (h2 e (by simp)) he
+
+example : (mainRun false (some ([some (.ok ())] ++ none :: [some (.ok ())]))).2 = false := by decide
+
+/-- SKIP_VERIFY prints whatever was read, verified or not (stated so that the option is visible in the model) -/
+theorem main_skip (doc : Option (List (Option (Except Err Unit)))) : mainRun true doc = (.ok, true) := by
+  simp [mainRun]
+
+example : mainRun true none = (.ok, true) := by decide
+
 /-! ### non-vacuity: concrete plays go through exclusion and the presence checks -/
 
 def isOk {α : Type} : Except Err α → Bool
